@@ -12,7 +12,7 @@ VARIABLES tid, l
 Traces == JsonDeserialize(IOEnv.TRACE_FILE)
 
 SameOb(a, b) == /\ a.rows = b.rows /\ a.pats = b.pats /\ a.ridx = b.ridx /\ a.pidx = b.pidx
-                /\ a.pinv = b.pinv /\ a.vec = b.vec /\ a.meas = b.meas /\ a.pcat = b.pcat
+                /\ a.pinv = b.pinv /\ a.vec = b.vec /\ a.meas = b.meas /\ a.pcat = b.pcat /\ a.pdem = b.pdem
 SameHeap(h, logged) == \A o \in 1..MaxObj : SameOb(h[o], logged[o])
 FirstDiff(h, logged) == CHOOSE o \in 1..MaxObj : ~SameOb(h[o], logged[o])
 
